@@ -126,3 +126,115 @@ Example C19_size_limit :
   let s395 := String.concat "" (repeat "vwxyz"%string 79) in
   accepted c sch [s395] = true /\ accepted c sch [String "v" s395] = false.
 Proof. vm_compute. split; reflexivity. Qed.
+
+(* ====================== the oracle and the theorems (Proofs/CsvOracle.v) ======================
+   The correspondence check evaluates on every case (a schema and a list of imports with what Go
+   did) `model_agrees` (MM: the model predicts Go's column types, strconv results, channel events
+   and table) and `spec_accepts` (SM: the table after each import is the table before followed by
+   the converted accepted records, ok exactly for the accepted records - C19_exact read on Go's
+   observations, for the configuration with the TABLE'S OWN column types when the destination
+   columns resolve in the schema and the types Go reported otherwise (`judged_types`); an import
+   whose configuration has no_panic = false is skipped, as C19_exact says nothing about it). *)
+From Mkdb Require Import Proofs.CsvOracle.
+
+(* the oracle accepts the model's own behaviour: for every schema, table before and list of
+   import requests (destination columns, source indexes, explicit column types, reader results),
+   the case whose observations are what `import` computes is accepted - no hypothesis, requests
+   whose configuration panics included *)
+Theorem C19_oracle_accepts_model : forall sch qs tbl,
+  spec_imports sch tbl (model_icases sch tbl qs) = true.
+Proof. exact oracle_accepts_model. Qed.
+Print Assumptions C19_oracle_accepts_model.
+
+(* agreement with the model (MM) implies acceptance by the oracle (SM): every schema, every list
+   of imports, every reader event list; no hypothesis on the case is needed *)
+Theorem C19_agreement_implies_acceptance : forall c,
+  model_agrees c = true -> spec_accepts c = true.
+Proof. exact agreement_implies_acceptance. Qed.
+Print Assumptions C19_agreement_implies_acceptance.
+
+(* the makeConfig route: if Go accepted the mapping exactly when make_config does, then an
+   accepted mapping has no negative source index and no more source than destination columns *)
+Theorem C19_config_agreement_implies_safe : forall c,
+  config_agrees c = true -> config_safe c = true.
+Proof. exact config_agreement_implies_safe. Qed.
+Print Assumptions C19_config_agreement_implies_safe.
+
+(* the other direction on that route: what the oracle calls safe, with destination columns the
+   table has, is a mapping make_config accepts (config_safe is not laxer than make_config) *)
+Theorem C19_safe_mapping_accepted : forall sch dst src,
+  forallb (fun z => (0 <=? z)%Z) src = true -> (List.length src <=? List.length dst)%nat = true ->
+  col_data_types sch dst <> None -> make_config sch dst src <> None.
+Proof. exact config_safe_accepted. Qed.
+Print Assumptions C19_safe_mapping_accepted.
+
+(* non-vacuity: two imports into the same table (the second starts from the first's table): the
+   mixed stream above, then a one-column mapping (a record with an extra field is accepted, a non-number is not); the model
+   agrees with the case, the oracle accepts it, and the table ends with 5 rows. *)
+Definition ex_reqs : list ireq :=
+  [ (ex_dst, [4; 1; 2; 3]%nat, [], ex_evs);
+    (["a"]%string, [0]%nat, [], [RRecord ["7"]%string; RParseErr; RRecord ["seven"]%string; RRecord ["-8"; "extra"]%string]) ].
+Definition ex_case : ccase := mkCase ex_sch (model_icases ex_sch [] ex_reqs).
+
+Example C19_oracle_demo :
+  model_agrees ex_case = true /\ spec_accepts ex_case = true /\
+  map (fun i => (i_events i, List.length (i_table i))) (c_imports ex_case) =
+    [ ([GOk; GErr ErrIntRange; GErr ErrMalformed; GErr ErrMalformed; GOk; GErr ErrMalformed;
+        GErr ErrMalformed; GOk; GErr ErrMalformed], 3%nat);
+      ([GOk; GErr ErrMalformed; GErr ErrMalformed; GOk], 5%nat) ] /\
+  config_agrees (ex_sch, ex_dst, [4; 1; 2; 3], true) = true /\
+  config_safe (ex_sch, ex_dst, [4; 1; 2; 3], true) = true.
+Proof. vm_compute. repeat split; reflexivity. Qed.
+
+(* the oracle is not trivially true: the same case with the last stored row missing from the
+   table Go showed, or with an `ok` reported for the rejected record, is rejected by both; and a
+   mapping with more source than destination columns that Go accepted is rejected by both *)
+Definition tamper_last (f : icase -> icase) (c : ccase) : ccase :=
+  mkCase (c_schema c) (removelast (c_imports c) ++ map f (skipn (List.length (c_imports c) - 1) (c_imports c))).
+Example C19_oracle_rejects :
+  let drop_row i := mkImport (i_dst i) (i_src i) (i_explicit i) (i_reader i) (i_catalog i) (i_coltypes i)
+                             (i_events i) (removelast (i_table i)) (i_atoi i) in
+  let all_ok i := mkImport (i_dst i) (i_src i) (i_explicit i) (i_reader i) (i_catalog i) (i_coltypes i)
+                           (map (fun _ => GOk) (i_events i)) (i_table i) (i_atoi i) in
+  spec_accepts (tamper_last drop_row ex_case) = false /\ model_agrees (tamper_last drop_row ex_case) = false /\
+  spec_accepts (tamper_last all_ok ex_case) = false /\ model_agrees (tamper_last all_ok ex_case) = false /\
+  config_safe (ex_sch, ["a"]%string, [0; 1], true) = false /\
+  config_agrees (ex_sch, ["a"]%string, [0; 1], true) = false.
+Proof. vm_compute. repeat split; reflexivity. Qed.
+
+(* the oracle does not trust the column types Go reports when the table has the destination
+   columns: had colDataTypes answered VARCHAR for the BOOLEAN column d, "true" would become a
+   string and be refused by the storage layer; judged with the table's types the record is an
+   accepted one, and the oracle REJECTS the refusal (until the oracle used `judged_types` it
+   computed `accepted` with the reported types and expected exactly that refusal). The same
+   import done right - with either type report - is accepted. *)
+Example C19_oracle_judges_with_table_coltypes :
+  let bad := mkCase ex_sch [mkImport ["d"]%string [0]%nat [] [RRecord ["true"]%string] true
+                                     [TVarchar] [GErr ErrType] [] []] in
+  let good tys := mkCase ex_sch [mkImport ["d"]%string [0]%nat [] [RRecord ["true"]%string] true
+                                          tys [GOk] [[VNull; VNull; VNull; VBool true]] []] in
+  spec_accepts bad = false /\ model_agrees bad = false /\
+  spec_accepts (good [TBoolean]) = true /\ model_agrees (good [TBoolean]) = true /\
+  spec_accepts (good [TVarchar]) = true /\ model_agrees (good [TVarchar]) = false.
+Proof. vm_compute. repeat split; reflexivity. Qed.
+
+(* what is left of the reported types: when the destination columns do NOT resolve in the schema
+   (the only case in which the oracle reads i_coltypes) no record is an accepted one, whatever the
+   types - one destination column is not a column of the table (ErrColumns) - so the reported
+   types reach the verdict only through their number (no_panic) *)
+Theorem C19_unresolved_destination_never_accepted : forall sch dst,
+  col_data_types sch dst = None -> forall tys src rec, accepted (mkCfg tys dst src) sch rec = false.
+Proof. exact unresolved_never_accepted. Qed.
+Print Assumptions C19_unresolved_destination_never_accepted.
+
+(* the explicit-types route in a case: destination "zz" is not a column; every record is refused,
+   the table is unchanged; both checks accept, and both reject an `ok` *)
+Example C19_oracle_explicit_route :
+  let c evs tbl := mkCase ex_sch [mkImport ["d"; "zz"]%string [0; 1]%nat [TBoolean; TInt]
+                                           [RRecord ["true"; "1"]%string; RRecord ["x"; "y"]%string] false
+                                           [TBoolean; TInt] evs tbl []] in
+  spec_accepts (c [GErr ErrColumns; GErr ErrMalformed] []) = true /\
+  model_agrees (c [GErr ErrColumns; GErr ErrMalformed] []) = true /\
+  spec_accepts (c [GOk; GErr ErrMalformed] [[VNull; VNull; VNull; VBool true]]) = false /\
+  model_agrees (c [GOk; GErr ErrMalformed] [[VNull; VNull; VNull; VBool true]]) = false.
+Proof. vm_compute. repeat split; reflexivity. Qed.
